@@ -24,6 +24,14 @@ from props import c02_gen as G
 
 JS = os.path.join(vlib.ROOT, 'js', 'scope.js')
 
+# witnesses of findings that have been fixed in /repo (known/C02.txt, `fixed:` lines): ordinary cases now
+REGRESSION = [
+    "function g(){ var y=1; function f(o){ with(o){ return y } } return f({y:2}) } out(g())",
+    "{ let x = 1; with({x:2}){ out(x) } }",
+    "function f(s){class i{static{let l=s+\"s\";let e=l;out(l,e)}}}f(\"A\")",
+    "function main(){var q=\"Q\";(function(){var e=\"I\";out(q,e);with({}){}})()}main()"
+]
+
 
 # ------------------------------------------------------------------------------------------------
 # pipeline: cases -> real minifier (twice) -> acorn projection + V8 -> TLC
@@ -89,24 +97,23 @@ def validate(ctx, proj, tag):
 # ------------------------------------------------------------------------------------------------
 def mc_trees(ctx):
     """exhaustive model checking of the design model; returns the emitted scope trees"""
-    cfgs = ['JsRenamer_quick.cfg', 'JsRenamer_withq.cfg', 'JsRenamer_with3q.cfg'] if ctx.quick() else \
-        ['JsRenamer_thorough.cfg', 'JsRenamer_three.cfg', 'JsRenamer_with.cfg', 'JsRenamer_with3.cfg']
+    cfgs = ['JsRenamer_quick.cfg', 'JsRenamer_withq.cfg', 'JsRenamer_with3q.cfg', 'JsRenamer_withnames.cfg'] if ctx.quick() else \
+        ['JsRenamer_thorough.cfg', 'JsRenamer_three.cfg', 'JsRenamer_with.cfg', 'JsRenamer_with3.cfg', 'JsRenamer_withnames.cfg']
     w = max(2, min(8, vlib.JOBS // 2))
 
     def mc(cfg):
         return vlib.tlc_mc(ctx, 'JsRenamer', cfg, workers=w, heap='6g', timeout=3000)
 
+    # wrong-design guards: the model constants of the behaviour BEFORE fix 1b51557 (OldWith = TRUE: only the innermost
+    # function of a with keeps its names) must still violate WithCross / CaptureFree - if they stop doing so the
+    # invariants have lost their teeth (machinery problem, exit 2)
     def cross(_):
-        # the design-level counterexample of the known finding with-outer (never a verdict by itself): the model of
-        # the code's per-function with flag violates WithCross; the rendered witnesses are pinned in known/C02.ndjson
         return vlib.tlc(ctx, 'JsRenamer', 'JsRenamer_withcross.cfg', workers=2, timeout=1200)
 
-    vlib._speccopy(ctx)      # the scratch copy of spec/ is made once, before the parallel TLC runs
     def inner(_):
-        # likewise for the known finding with-inner: with a declared name inside the generated range (LocalNames
-        # contains "a") the model of the code violates CaptureFree
         return vlib.tlc(ctx, 'JsRenamer', 'JsRenamer_withinner.cfg', workers=2, timeout=1200)
 
+    vlib._speccopy(ctx)      # the scratch copy of spec/ is made once, before the parallel TLC runs
     with ThreadPoolExecutor(max_workers=len(cfgs) + 2) as ex:
         fx = ex.submit(cross, None)
         fi = ex.submit(inner, None)
@@ -120,8 +127,11 @@ def mc_trees(ctx):
             trees.append(json.loads(json.loads('"' + m.group(1) + '"')))
         ctx.coverage.setdefault('mc_runs', []).append(dict(cfg=cfg, states=r['distinct'], trees=len(trees) - n0,
                                                             wall_s=round(r['wall'], 1)))
-    ctx.coverage['design_counterexample_WithCross'] = 'WithCross' in rx['invariant_violations']
-    ctx.coverage['design_counterexample_WithInner'] = 'CaptureFree' in ri['invariant_violations']
+    g1, g2 = 'WithCross' in rx['invariant_violations'], 'CaptureFree' in ri['invariant_violations']
+    ctx.coverage['old_design_guard_WithCross_violated'] = g1
+    ctx.coverage['old_design_guard_WithInner_violated'] = g2
+    if not (g1 and g2):
+        raise vlib.Infra('wrong-design guard no longer violates (withcross=%s withinner=%s)' % (g1, g2))
     return trees
 
 
@@ -137,11 +147,12 @@ def build_cases(ctx, trees):
         seen.add(src)
         cases.append(dict(id=len(cases), src=src, origin=origin, generated=generated))
 
-    # (1) model trees.  The excluded construct is filtered on the abstract tree.
-    usable = [t for t in trees if not G.tree_uses_outer_from_with(t['units'])]
+    # (0) witnesses of fixed findings
+    for src in REGRESSION:
+        add(src, 'regression')
+    # (1) model trees
     ctx.coverage['mc_trees'] = len(trees)
-    ctx.coverage['mc_trees_excluded_known_construct'] = len(trees) - len(usable)
-    pick = vlib.sample(usable, 1800 if quick else 60000, rnd)
+    pick = vlib.sample(trees, 1500 if quick else 60000, rnd)
     for t in pick:
         add(G.render_tree(t, rnd), 'mc')
     # (2) pressure
@@ -172,7 +183,7 @@ def build_cases(ctx, trees):
     for k in range(len(G.NESTED_FN) * len(G.LATER_SCOPE)):
         add(G.with_nested_then_scope(rnd, k), 'pressure/withnested')
     # (3) random nestings
-    for _ in range(450 if quick else 16000):
+    for _ in range(400 if quick else 16000):
         add(G.random_program(rnd, maxdepth=rnd.choice([2, 3, 4])), 'random')
     # (4) the repository's own inputs (code -> spec direction)
     try:
@@ -192,8 +203,7 @@ def build_cases(ctx, trees):
 # Annex B.3.3 semantics are not modelled in JsScope).  Inputs with `with` are judged like all others.
 def drift(ctx, exe, trees):
     """D vs C (information only): the model's prediction with the real alphabet against the real output"""
-    usable = [t for t in trees if not G.tree_uses_outer_from_with(t['units'])]
-    pick = vlib.sample(usable, 500 if ctx.quick() else 6000, ctx.rnd)
+    pick = vlib.sample(trees, 500 if ctx.quick() else 6000, ctx.rnd)
     # every second tree is respelled so that declared and free names coincide with the first names the real
     # alphabet hands out (e t n s): only then does the comparison see which names the code avoids
     sub = {'x': 'e', 'y': 't', 'a': 'n', 'ba': 's'}
@@ -349,16 +359,15 @@ def run(ctx):
         longest_generated_name=longest,
         rule='a case is one program minified with KeepVarNames on and off; non-trivial = both outputs have the same '
              'tree and at least one occurrence is spelled differently. Generators exclude the narrow constructs of the '
-             'known findings (known/C02.txt; witnesses pinned and replayed on every run): (1) a with statement whose '
-             'body references a renamable binding declared outside the innermost function containing it; (2) a loop '
-             'body block that re-declares the loop variable name and refers to it before the inner declaration; '
-             '(2b) a function that contains with, declares a name the renamer may hand out and refers to a local of '
-             'an enclosing function; (3) declarations inside a class static block; (4) parameter defaults/patterns and array/object literals '
-             'with identifiers inside an object-literal method written inside a parenthesised expression; (5) a '
-             'function whose parameter default references a name that its body declares with var, or declares at all '
-             'when the function has a rest parameter. Repository inputs with a function declaration nested in a block '
-             '(Annex B.3.3 not modelled) are outside the quantifier: counted in projection_status, not judged. Programs whose name-keeping output does not parse (var hoisted next to '
-             'a let of the same name - a C09 matter) have no reference world: counted in keep_output_unparseable, not judged',
+             'remaining known findings (known/C02.txt, all scoping defects of the parse dependency; witnesses pinned and '
+             'replayed on every run): (1) a loop body block that re-declares the loop variable name and refers to it '
+             'before the inner declaration; (2) var inside a class static block; (3) parameter defaults/patterns and '
+             'array/object literals with identifiers inside an object-literal method written inside a parenthesised '
+             'expression; (4) a function whose parameter default references a name that its body declares with var, or '
+             'declares at all when the function has a rest parameter. Repository inputs with a function declaration '
+             'nested in a block (Annex B.3.3 not modelled) are outside the quantifier: counted in projection_status, '
+             'not judged. Programs whose name-keeping output does not parse (var hoisted next to a let of the same '
+             'name - a C09 matter) have no reference world: counted in keep_output_unparseable, not judged',
         samples=samples,
     ))
     ctx.assumptions += [
@@ -404,6 +413,6 @@ META = dict(
          'both outputs as behavioural cross-check.',
     design_ref='DESIGN.md section 4, C02; Appendix A.4',
     note='Trusted: TLC, acorn (syntax only), V8. Resolution is defined in TLA+, not taken from any parser. Known '
-         'finding pinned in known/C02.*: with-bodies referencing outer locals.',
+         'findings pinned in known/C02.*.',
     technique='TLA+ design model + scoping semantics; TLC trace validation of keep/shortened output pairs',
 )
